@@ -35,11 +35,10 @@ Qed.
 
 (* ------------------------------------------------------------------ spelling independence *)
 Lemma key_spelling_invariant : forall p,
-  norm_key (46 :: 47 :: p) = norm_key p /\ norm_key (46 :: 92 :: p) = norm_key p /\
-  norm_key (norm_key p) = norm_key p.
-Proof.
-  intro p. split; [|split]; [reflexivity | reflexivity | apply norm_key_idem].
-Qed.
+  norm_key (norm_key p) = norm_key p /\
+  (SG.Paths.Model.is_abs (SG.Paths.Model.unbackslash p) = false ->
+   norm_key (46 :: 47 :: p) = norm_key p /\ norm_key (46 :: 92 :: p) = norm_key p).
+Proof. intro p. split; [apply norm_key_idem | apply norm_key_prefix]. Qed.
 
 (* ------------------------------------------------------------------ keys written by an update are stable *)
 Lemma update_keys_stable : forall R m ex,
